@@ -412,6 +412,18 @@ def run_check(mod, tier, seed):
         lean = lean_prepare_driver_only(log=ctx.log)
     ctx.lean = lean
     broken = list(lean.bad)
+    # source fingerprints: never an alarm; a source that differs from the one the model was last validated against gets a
+    # wider budget, and the evidence names what changed
+    try:
+        import fingerprint
+        src_changed = fingerprint.changed(REPO)
+    except Exception as e:
+        src_changed = ['<fingerprint failed: %s>' % type(e).__name__]
+    if src_changed:
+        ctx.base_scale = 3
+        ctx.scale = 3
+        ctx.notes.append('source differs from the validated baseline in %d place(s): %s - budgets x3' % (len(src_changed), ', '.join(src_changed[:12])))
+        ctx.log('source fingerprints changed: ' + ', '.join(src_changed[:12]))
 
     # correspondence
     if lean.driver_ok or level != 'proof':
@@ -441,14 +453,14 @@ def run_check(mod, tier, seed):
         ctx.log(traceback.format_exc())
     if broken and not ctx.violations:
         ctx.log('obligation(s) broken, starting the failing-input search: ' + '; '.join(broken)[:600])
-        ctx.scale = 8
+        ctx.scale = 8 * getattr(ctx, 'base_scale', 1)
         try:
             mod.explore(ctx, seeds)
         except MachineryError:
             raise
         except Exception as e:
             ctx.log(traceback.format_exc())
-        ctx.scale = 1
+        ctx.scale = getattr(ctx, 'base_scale', 1)
 
     # known findings
     known = load_known(prop_id)
@@ -536,6 +548,7 @@ def run_check(mod, tier, seed):
                         + [s for u in ctx.units.values() for s in u.samples][:4]
                         + ctx.samples),
             'generated_constants_changed': lean.gen_changed,
+            'source_changed_since_validation': src_changed,
             'partial': list(getattr(mod, 'PARTIAL', [])) + ctx.partial,
             'broken': broken,
             'known_findings_listed': [f.get('id') for f in known],
